@@ -24,6 +24,15 @@ def short_xl_string(hb, units):
 BOF_GLOBALS = rec(0x0809, struct.pack("<HHHHII", 0x0600, 0x0005, 0x0DBB, 0x07CC, 0, 0x0306))
 BOF_SHEET = rec(0x0809, struct.pack("<HHHHII", 0x0600, 0x0010, 0x0DBB, 0x07CC, 0, 0x0306))
 CODEPAGE = rec(0x0042, struct.pack("<H", 1200))
+# CodePage records real BIFF8 writers put behind the BOF ([MS-XLS] 2.4.52: any code page; BIFF8 text
+# is Unicode whatever it says): 1200 Excel, 1252 JExcelApi (tests/sheet_name_parsing.xls of the
+# repository), ANSI / DBCS pages of localised writers, UTF-8, Mac Roman, UTF-16BE, values the
+# `codepage` crate does not know (437, 0, 54321, 65535), and no record at all (None)
+CODEPAGES = [1200, 1200, 1252, 1252, 1251, 1250, 932, 936, 949, 950, 874, 65001, 10000, 1201, 437,
+             0, 54321, 65535, None, None]
+
+def codepage_rec(cp):
+    return b"" if cp is None else rec(0x0042, struct.pack("<H", cp))
 EOF = rec(0x000A, b"")
 # FORMULA body tail: cached value = "string follows", options, chn, rgce = PtgInt 1
 FORMULA_STRING_STUB = bytes([0, 0, 0, 0, 0, 0, 0xFF, 0xFF]) + struct.pack("<HI", 0, 0) + bytes([3, 0, 0x1E, 1, 0])
@@ -33,6 +42,8 @@ def cell_records(cell):
     | ('fstringc', row, col, STRING body, [CONTINUE body, ...])   a formula's string result whose STRING
       record is followed by CONTINUE records (bodies from the extracted Coq writer fstring_encode)"""
     k = cell[0]
+    if k == "raw":                      # ('raw', bytes): records written as they are (DIMENSIONS ...)
+        return cell[1]
     if k == "sst":
         return rec(0x00FD, struct.pack("<HHHI", cell[1], cell[2], 15, cell[3]))
     if k == "label":
@@ -48,8 +59,10 @@ def cell_records(cell):
 def sst_records(data, conts):
     return rec(0x00FC, data) + b"".join(rec(0x003C, c) for c in conts)
 
-def workbook_stream(sst_data, sst_conts, sheets, extra_globals=b""):
-    """sheets = [(hb, name_units, [cell…])]; returns the Workbook stream"""
+def workbook_stream(sst_data, sst_conts, sheets, extra_globals=b"", codepage=1200):
+    """sheets = [(hb, name_units, [cell…])]; codepage = value of the CodePage record (None: no
+    record); returns the Workbook stream"""
+    CODEPAGE = codepage_rec(codepage)
     sst = sst_records(sst_data, sst_conts)
     def bsheet(pos, hb, units):
         return rec(0x0085, struct.pack("<IBB", pos, 0, 0) + short_xl_string(hb, units))
